@@ -144,3 +144,9 @@ pub(crate) fn merge_trees<S: IndexedTree>(
 
     Ok(tree_merged)
 }
+
+#[cfg(rustic_core_verif)]
+#[allow(missing_docs, unused_imports, dead_code, clippy::all, clippy::pedantic, clippy::nursery)]
+pub mod verif_hooks {
+    use super::*;
+}
